@@ -170,6 +170,9 @@ func runC02(c *Ctx) {
 			case fname == "agent.forwardRequest" && (m.Kind == "Header.Set" || m.Kind == "Header.Add") && m.Key == canonicalHeaderKey(hdrUserID):
 				ok = flagGuard(m.Instr, "forwardUserID")
 				why = "asserted user identity, only under -forward-user-id (C09)"
+			case fname == "agent.forwardRequest" && m.Kind == "Header.Del" && m.Key == canonicalHeaderKey(hdrUserID):
+				ok = flagGuard(m.Instr, "forwardUserID")
+				why = "removal of a client-supplied identity header before the asserted one is added, only under -forward-user-id (C09)"
 			case fname == "agent.forwardRequest" && m.Kind == "Header.Del" && m.Key == "Authorization":
 				ok = flagGuard(m.Instr, "stripCredentials")
 				why = "credential stripping, only under -strip-credentials (C09)"
